@@ -283,7 +283,7 @@ class HistRunner {
       if (rc != LDB_NOTFOUND) VF_FAIL(prop, "get(%s) returned rc=%d, expected NOTFOUND", show_key(k).c_str(), rc);
     } else {
       if (rc == LDB_NOTFOUND)
-        VF_FAIL(prop, "get(%s) returned NOTFOUND but the model has %s%s", show_key(k).c_str(),
+        VF_FAIL(prop, "%s(%s) returned NOTFOUND but the model has %s%s", use_has ? "has" : "get", show_key(k).c_str(),
                 show_val(*it->second).c_str(), snap ? " [snapshot]" : "");
       if (rc != LDB_OK) VF_FAIL(prop, "get(%s) returned rc=%d, expected OK", show_key(k).c_str(), rc);
       if (!use_has) {
@@ -368,6 +368,7 @@ class HistRunner {
       }
       check_scan(s.second.view, s.second.h, "C06");
     }
+    verify_foreign("at a full check");
     rep->count("full_checks");
   }
 
@@ -846,6 +847,8 @@ class HistRunner {
       op_destroy(op);
     } else if (n == "lockprobe") {
       op_lockprobe();
+    } else if (n == "foreign") {
+      op_foreign(op);
     } else if (n == "badopen") {
       op_badopen(op);
     } else if (n == "check") {
@@ -1127,24 +1130,67 @@ class HistRunner {
     rep->count("copies");
   }
 
-  void op_destroy(const Op &) {
+  // The database's own names, written from the list in the documentation (filename.c header comment and C20's anchors):
+  // CURRENT, LOCK, LOG, LOG.old, MANIFEST-[0-9]+, [0-9]+.(log|sst|ldb|dbtmp).  Everything else is foreign.
+  static bool is_owned_name(const std::string &n) {
+    uint64_t num; std::string kind;
+    return n == "CURRENT" || n == "LOCK" || n == "LOG" || n == "LOG.old" || parse_db_filename(n, &num, &kind);
+  }
+  static bool usable_foreign_name(const std::string &n) {
+    if (n.empty() || n.size() > 80 || n == "." || n == ".." || n == "lost" || n == "subdir") return false;
+    for (unsigned char ch : n) if (!(isalnum(ch) || ch == '.' || ch == '_' || ch == '-' || ch == '~')) return false;
+    // a run of more than 18 digits is left out: whether an overflowing number "parses" is not something the property fixes
+    size_t run = 0;
+    for (unsigned char ch : n) { run = isdigit(ch) ? run + 1 : 0; if (run > 18) return false; }
+    return !is_owned_name(n);
+  }
+  std::map<std::string, std::string> foreign_files;   // foreign files living next to the database; nothing may touch them
+
+  void add_foreign_from(const Op &op) {
+    for (auto &a : op.args) {
+      std::string n;
+      if (!expand_bytes(a, n) || !usable_foreign_name(n)) continue;
+      std::string body = "foreign:" + n;
+      if (!write_file(dir + "/" + n, body)) continue;
+      foreign_files[n] = body;
+      rep->count("foreign_files_placed");
+      if (n.compare(0, 3, "LOG") == 0 || n.compare(0, 4, "LOCK") == 0 || n.compare(0, 7, "CURRENT") == 0) rep->count("class.C20_foreign_near_fixed_name");
+      else if (n.compare(0, 8, "MANIFEST") == 0) rep->count("class.C20_foreign_near_manifest_name");
+      else if (isdigit((unsigned char)n[0])) rep->count("class.C20_foreign_near_numbered_name");
+    }
+  }
+  void verify_foreign(const char *after) {
+    for (auto &f : foreign_files) {
+      std::string b;
+      if (!read_file(dir + "/" + f.first, b)) VF_FAIL("C20", "the foreign file %s disappeared from the database directory (%s)", f.first.c_str(), after);
+      if (b != f.second) VF_FAIL("C20", "the foreign file %s was modified (%s)", f.first.c_str(), after);
+    }
+  }
+  void op_foreign(const Op &op) {
+    if (!db) { rep->count("skipped_ops"); return; }
+    verify_foreign("before placing more");
+    add_foreign_from(op);
+  }
+
+  void op_destroy(const Op &op) {
     if (!db) { rep->count("skipped_ops"); return; }
     close_db();
     if (sched_on) sched_quiesce();
-    // foreign files that destroy must leave alone
-    std::map<std::string, std::string> foreign = {{"notes.txt", "hello"}, {"000001.txt", "not a table"}, {"MANIFEST-abc", "not a manifest"}, {"CURRENT.bak", "x"}, {"7.ldbx", "y"}};
-    for (auto &f : foreign) write_file(dir + "/" + f.first, f.second);
+    verify_foreign("after ldb_close");
+    // foreign files that destroy must leave alone: a fixed set plus the generated near-misses of the owned name forms
+    { Op fixed; fixed.args = {"tnotes.txt", "t000001.txt", "tMANIFEST-abc", "tCURRENT.bak", "t7.ldbx"}; add_foreign_from(fixed); }
+    add_foreign_from(op);
     mkdir((dir + "/subdir").c_str(), 0755);
     write_file(dir + "/subdir/000005.ldb", "a table-like name inside a foreign directory");
     opts.build(cfg);
     int rc = ldb_destroy(dir.c_str(), &opts.opt);
     if (rc != LDB_OK) VF_FAIL("C20", "ldb_destroy returns %d", rc);
     for (auto &n : list_dir(dir)) {
-      uint64_t num; std::string kind;
-      if (n == "CURRENT" || n == "LOCK" || n == "LOG" || n == "LOG.old" || parse_db_filename(n, &num, &kind)) VF_FAIL("C20", "ldb_destroy left the database file %s behind", n.c_str());
+      if (is_owned_name(n)) VF_FAIL("C20", "ldb_destroy left the database file %s behind", n.c_str());
     }
-    for (auto &f : foreign) { std::string b; if (!read_file(dir + "/" + f.first, b) || b != f.second) VF_FAIL("C20", "ldb_destroy removed or changed the foreign file %s", f.first.c_str()); }
+    verify_foreign("after ldb_destroy");
     { std::string b; if (!read_file(dir + "/subdir/000005.ldb", b)) VF_FAIL("C20", "ldb_destroy removed a file inside a foreign sub-directory"); }
+    foreign_files.clear();
     // clean up the foreign files ourselves and start afresh
     rm_rf(dir);
     model.clear();
@@ -1176,20 +1222,23 @@ class HistRunner {
     int rc = ldb_open(dir.c_str(), &o2.opt, &d2);
     sched_call_end();
     if (rc == LDB_OK) { sched_call_begin(); ldb_close(d2); sched_call_end(); VF_FAIL("C20", "a second ldb_open of the open directory succeeded in the same process"); }
-    // another process
+    // another process: a fresh image (fork + exec of this binary in --lockprobe mode), because a forked child would
+    // inherit lcdb's in-memory table of locked files and be refused by that table rather than by the file lock.
+    // The probe comes after the refused same-process open on purpose: that refusal must not weaken the lock.
     fflush(stdout);
     pid_t pid = fork();
     if (pid == 0) {
       sched_detach_child();
-      DbOptions o3;
-      o3.build(cfg);
-      ldb_t *d3 = nullptr;
-      int r3 = ldb_open(dir.c_str(), &o3.opt, &d3);
-      _exit(r3 == LDB_OK ? 7 : 0);
+      char exe[4096];
+      ssize_t n = readlink("/proc/self/exe", exe, sizeof exe - 1);
+      if (n <= 0) _exit(0);
+      exe[n] = 0;
+      execl(exe, exe, "--lockprobe", dir.c_str(), "--cmp", cfg.cmp.c_str(), (char *)nullptr);
+      _exit(0);
     }
     int st = 0;
     waitpid(pid, &st, 0);
-    if (WIFEXITED(st) && WEXITSTATUS(st) == 7) VF_FAIL("C20", "ldb_open of the open directory succeeded from another process");
+    if (WIFEXITED(st) && WEXITSTATUS(st) == 7) VF_FAIL("C20", "ldb_open of the open directory succeeded from another process (after a refused second open in this process)");
     if (!WIFEXITED(st) || WEXITSTATUS(st) != 0) rep->count("lockprobe_child_abnormal");
     // the first handle still works
     Op dummy;
